@@ -871,6 +871,346 @@ def tr_decisions(base, qst, povmt, qpt, qmpt):
     return "\n".join(out)
 
 
+# ------------------------------------------------------------------ numerical one-liners and sample-statistics loops
+def np_call(e, name, nargs=None):
+    return (isinstance(e, ast.Call) and isinstance(e.func, ast.Attribute) and e.func.attr == name and is_name(e.func.value, "np")
+            and (nargs is None or len(e.args) == nargs))
+
+
+def is_row_of(e, q):
+    """np.array([q])"""
+    return np_call(e, "array", 1) and not e.keywords and isinstance(e.args[0], ast.List) and len(e.args[0].elts) == 1 and is_name(e.args[0].elts[0], q)
+
+
+def is_outer_self(e, q):
+    """np.array([q]).T @ np.array([q])"""
+    return (isinstance(e, ast.BinOp) and isinstance(e.op, ast.MatMult) and isinstance(e.left, ast.Attribute) and e.left.attr == "T"
+            and is_row_of(e.left.value, q) and is_row_of(e.right, q))
+
+
+def cov_expr(stmts, q, n, fdef):
+    """`m = np.diag(q) - np.array([q]).T @ np.array([q])` ; `return m / n`"""
+    if len(stmts) != 2:
+        fail(fdef, "expected 2 statements")
+    mname, v = assign1(stmts[0])
+    ok = (isinstance(v, ast.BinOp) and isinstance(v.op, ast.Sub) and np_call(v.left, "diag", 1) and is_name(v.left.args[0], q) and is_outer_self(v.right, q))
+    if not ok:
+        fail(stmts[0], "expected `<m> = np.diag(%s) - np.array([%s]).T @ np.array([%s])`" % (q, q, q))
+    r = stmts[1]
+    if not (isinstance(r, ast.Return) and isinstance(r.value, ast.BinOp) and isinstance(r.value.op, ast.Div) and is_name(r.value.left, mname) and is_name(r.value.right, n)):
+        fail(r, "expected `return <m> / %s`" % n)
+    return "fun i j => kdiv F (csub F (if Nat.eqb i j then q i else c0 F) (cmul F (q i) (q j))) n"
+
+
+def tr_cov_mats(mu, da):
+    f = find_def(mu, "calc_covariance_mat")
+    if argnames(f) != ["q", "n"]:
+        fail(f, "unexpected parameters")
+    out = ["Definition gen_cov_mat (n : F) (q : vec) : mat := %s.\n" % cov_expr(body_wo_doc(f), "q", "n", f)]
+    f = find_def(da, "calc_covariance_matrix_of_prob_dist")
+    if argnames(f) != ["prob_dist", "data_num"]:
+        fail(f, "unexpected parameters")
+    e = cov_expr(body_wo_doc(f), "prob_dist", "data_num", f)
+    out.append("Definition gen_da_cov_mat (n : F) (q : vec) : mat := %s.\n" % e)
+    # calc_covariance_matrix_of_prob_dists
+    f = find_def(da, "calc_covariance_matrix_of_prob_dists")
+    if argnames(f) != ["prob_dists", "data_num"]:
+        fail(f, "unexpected parameters")
+    st = body_wo_doc(f)
+    if len(st) != 6:
+        fail(f, "expected 6 statements")
+    blocks, v = assign1(st[0])
+    ok = (isinstance(v, ast.ListComp) and len(v.generators) == 1 and not v.generators[0].ifs and is_name(v.generators[0].iter, "prob_dists")
+          and isinstance(v.generators[0].target, ast.Name) and isinstance(v.elt, ast.Call) and is_name(v.elt.func, "calc_covariance_matrix_of_prob_dist")
+          and len(v.elt.args) == 2 and not v.elt.keywords and is_name(v.elt.args[0], v.generators[0].target.id) and is_name(v.elt.args[1], "data_num"))
+    if not ok:
+        fail(st[0], "expected `<blocks> = [calc_covariance_matrix_of_prob_dist(p, data_num) for p in prob_dists]`")
+    msz, v = assign1(st[1])
+    ok = (np_call(v, "sum", 1) and isinstance(v.args[0], ast.ListComp) and len(v.args[0].generators) == 1 and is_name(v.args[0].generators[0].iter, "prob_dists")
+          and isinstance(v.args[0].elt, ast.Call) and is_name(v.args[0].elt.func, "len") and is_name(v.args[0].elt.args[0], v.args[0].generators[0].target.id))
+    if not ok:
+        fail(st[1], "expected `<size> = np.sum([len(p) for p in prob_dists])`")
+    mat, v = assign1(st[2])
+    ok = (np_call(v, "zeros", 1) and isinstance(v.args[0], ast.Tuple) and len(v.args[0].elts) == 2 and all(is_name(x, msz) for x in v.args[0].elts))
+    if not ok:
+        fail(st[2], "expected `<matrix> = np.zeros((<size>, <size>))`")
+    idx, v = assign1(st[3])
+    if not is_const(v, 0):
+        fail(st[3], "expected `<index> = 0`")
+    lp = st[4]
+    if not (isinstance(lp, ast.For) and not lp.orelse and is_name(lp.iter, blocks) and isinstance(lp.target, ast.Name) and len(lp.body) == 3):
+        fail(lp, "expected `for <d> in <blocks>:` with three statements")
+    d = lp.target.id
+    sz, v = assign1(lp.body[0])
+    nx = NatExpr(env={idx: idx}, arrs=[d])
+    size_e = nx.tr(v)
+    nx.env[sz] = sz
+    pl = lp.body[1]
+    ok = (isinstance(pl, ast.Assign) and len(pl.targets) == 1 and isinstance(pl.targets[0], ast.Subscript) and is_name(pl.targets[0].value, mat)
+          and isinstance(pl.targets[0].slice, ast.Tuple) and len(pl.targets[0].slice.elts) == 2 and is_name(pl.value, d))
+    if not ok:
+        fail(pl, "expected `<matrix>[a:b, c:d] = <d>`")
+    r0, r1 = slice_bounds(pl.targets[0].slice.elts[0], nx)
+    c0, c1 = slice_bounds(pl.targets[0].slice.elts[1], nx)
+    up = lp.body[2]
+    if not (isinstance(up, ast.AugAssign) and is_name(up.target, idx) and isinstance(up.op, ast.Add)):
+        fail(up, "expected `<index> += ...`")
+    nxt = nx.tr(up.value)
+    if not (isinstance(st[5], ast.Return) and is_name(st[5].value, mat)):
+        fail(st[5], "expected `return <matrix>`")
+    out.append("(* prob_dists as (length, distribution); the blocks are len x len arrays *)\n"
+               "Definition gen_da_cov_place (data_num : F) (prob_dists : list (nat * vec)) : nat * mat :=\n"
+               "  fold_left (fun st %s => let '(%s, %s) := st in let %s := %s in\n"
+               "      ((%s + %s)%%nat, np_place F %s %s %s %s (a_dat %s) %s))\n"
+               "    (map (fun p : nat * vec => {| a_ndim := 2; a_sh0 := fst p; a_sh1 := fst p; a_dat := gen_da_cov_mat data_num (snd p) |}) prob_dists)\n"
+               "    (0%%nat, np_zeros F).\n" % (d, idx, mat, sz, size_e, idx, nxt, r0, r1, c0, c1, d, mat))
+    return "\n".join(out)
+
+
+def is_vdot_diff(e, a, b):
+    def diff(x):
+        return isinstance(x, ast.BinOp) and isinstance(x.op, ast.Sub) and is_name(x.left, a) and is_name(x.right, b)
+    return np_call(e, "vdot", 2) and not e.keywords and diff(e.args[0]) and diff(e.args[1])
+
+
+def zip_loop(lp, l1, l2):
+    ok = (isinstance(lp, ast.For) and not lp.orelse and isinstance(lp.iter, ast.Call) and is_name(lp.iter.func, "zip") and len(lp.iter.args) == 2
+          and is_name(lp.iter.args[0], l1) and is_name(lp.iter.args[1], l2) and isinstance(lp.target, ast.Tuple) and len(lp.target.elts) == 2
+          and all(isinstance(x, ast.Name) for x in lp.target.elts))
+    if not ok:
+        fail(lp, "expected `for a, b in zip(%s, %s):`" % (l1, l2))
+    return lp.target.elts[0].id, lp.target.elts[1].id
+
+
+def is_append(st, L, name):
+    return (isinstance(st, ast.Expr) and isinstance(st.value, ast.Call) and isinstance(st.value.func, ast.Attribute) and st.value.func.attr == "append"
+            and is_name(st.value.func.value, L) and len(st.value.args) == 1 and is_name(st.value.args[0], name))
+
+
+def kw_int(call, key):
+    for k in call.keywords:
+        if k.arg == key:
+            if isinstance(k.value, ast.Constant) and type(k.value.value) is int and 0 <= k.value.value <= 3:
+                return k.value.value
+            fail(call, "unsupported value of %s" % key)
+    return 0
+
+
+def mean_std(st_mean, st_std, L):
+    """`m = np.mean(L, dtype=...)`, `s = np.std(L, dtype=..., ddof=k)` -> (m name, s name, ddof)"""
+    m, v = assign1(st_mean)
+    if not (np_call(v, "mean", 1) and is_name(v.args[0], L) and all(k.arg == "dtype" for k in v.keywords)):
+        fail(st_mean, "expected `<m> = np.mean(%s, dtype=...)`" % L)
+    sd, v = assign1(st_std)
+    if not (np_call(v, "std", 1) and is_name(v.args[0], L) and all(k.arg in ("dtype", "ddof") for k in v.keywords)):
+        fail(st_std, "expected `<s> = np.std(%s, dtype=..., ddof=k)`" % L)
+    return m, sd, kw_int(v, "ddof")
+
+
+def tr_sample_stats(mu, da):
+    out = []
+    # calc_se
+    f = find_def(mu, "calc_se")
+    if argnames(f) != ["xs", "ys"]:
+        fail(f, "unexpected parameters")
+    st = body_wo_doc(f)
+    if len(st) != 4:
+        fail(f, "expected 4 statements")
+    L, v = assign1(st[0])
+    if not (isinstance(v, ast.List) and not v.elts):
+        fail(st[0], "expected `<L> = []`")
+    a, b = zip_loop(st[1], "xs", "ys")
+    if len(st[1].body) != 2:
+        fail(st[1], "expected two statements in the loop")
+    e, v = assign1(st[1].body[0])
+    if not is_vdot_diff(v, a, b):
+        fail(st[1].body[0], "expected `<e> = np.vdot(x - y, x - y)`")
+    if not is_append(st[1].body[1], L, e):
+        fail(st[1].body[1], "expected `<L>.append(<e>)`")
+    se, v = assign1(st[2])
+    if not (np_call(v, "sum", 1) and is_name(v.args[0], L) and all(k.arg == "dtype" for k in v.keywords)):
+        fail(st[2], "expected `<se> = np.sum(<L>, dtype=...)`")
+    if not (isinstance(st[3], ast.Return) and is_name(st[3].value, se)):
+        fail(st[3], "expected `return <se>`")
+    out.append("Definition gen_calc_se (n : nat) (xs ys : list vec) : F :=\n"
+               "  lsumF F (map (fun xy : vec * vec => sqdist F n (fst xy) (snd xy)) (combine xs ys)).\n")
+    # calc_mse_prob_dists
+    f = find_def(mu, "calc_mse_prob_dists")
+    if argnames(f) != ["xs_list", "ys_list"]:
+        fail(f, "unexpected parameters")
+    st = body_wo_doc(f)
+    if len(st) != 5:
+        fail(f, "expected 5 statements")
+    L, v = assign1(st[0])
+    if not (isinstance(v, ast.List) and not v.elts):
+        fail(st[0], "expected `<L> = []`")
+    a, b = zip_loop(st[1], "xs_list", "ys_list")
+    if len(st[1].body) != 2:
+        fail(st[1], "expected two statements in the loop")
+    e, v = assign1(st[1].body[0])
+    if not (isinstance(v, ast.Call) and is_name(v.func, "calc_se") and len(v.args) == 2 and not v.keywords and is_name(v.args[0], a) and is_name(v.args[1], b)):
+        fail(st[1].body[0], "expected `<se> = calc_se(xs, ys)`")
+    if not is_append(st[1].body[1], L, e):
+        fail(st[1].body[1], "expected `<L>.append(<se>)`")
+    m, sd, ddof = mean_std(st[2], st[3], L)
+    r = st[4]
+    if not (isinstance(r, ast.Return) and isinstance(r.value, ast.Tuple) and len(r.value.elts) == 2 and is_name(r.value.elts[0], m) and is_name(r.value.elts[1], sd)):
+        fail(r, "expected `return <mse>, <std>`")
+    out.append("(* returns (mean, VARIANCE with the given ddof): the square of the returned standard deviation *)\n"
+               "Definition gen_mse_prob_dists (n : nat) (xs_list ys_list : list (list vec)) : F * F :=\n"
+               "  let se_list := map (fun p : list vec * list vec => gen_calc_se n (fst p) (snd p)) (combine xs_list ys_list) in\n"
+               "  (mean F se_list, var_ddof F %d se_list).\n" % ddof)
+    # data_analysis._calc_mse_linear_analytical_mode_qoperation  (the sample MSE of estimated objects)
+    f = find_def(da, "_calc_mse_linear_analytical_mode_qoperation")
+    if argnames(f) != ["xs", "ys", "with_std"]:
+        fail(f, "unexpected parameters")
+    st = body_wo_doc(f)
+    if len(st) != 4:
+        fail(f, "expected 4 statements")
+    L, v = assign1(st[0])
+    if not (isinstance(v, ast.List) and not v.elts):
+        fail(st[0], "expected `<L> = []`")
+    a, b = zip_loop(st[1], "xs", "ys")
+    body = st[1].body
+    if len(body) != 4:
+        fail(st[1], "expected four statements in the loop")
+
+    def stacked(s_, obj):
+        n_, v_ = assign1(s_)
+        if not (isinstance(v_, ast.Call) and isinstance(v_.func, ast.Attribute) and v_.func.attr == "to_stacked_vector" and is_name(v_.func.value, obj) and not v_.args):
+            fail(s_, "expected `<v> = %s.to_stacked_vector()`" % obj)
+        return n_
+    xv = stacked(body[0], a); yv = stacked(body[1], b)
+    e, v = assign1(body[2])
+    if not is_vdot_diff(v, xv, yv):
+        fail(body[2], "expected `<point> = np.vdot(x_vec - y_vec, x_vec - y_vec)`")
+    if not is_append(body[3], L, e):
+        fail(body[3], "expected `<L>.append(<point>)`")
+    m, v = assign1(st[2])
+    if not (np_call(v, "mean", 1) and is_name(v.args[0], L) and all(k.arg == "dtype" for k in v.keywords)):
+        fail(st[2], "expected `<mse> = np.mean(<L>, dtype=...)`")
+    iff = st[3]
+    ok = (isinstance(iff, ast.If) and is_name(iff.test, "with_std") and len(iff.body) == 2 and len(iff.orelse) == 1
+          and isinstance(iff.orelse[0], ast.Return) and is_name(iff.orelse[0].value, m))
+    if not ok:
+        fail(iff, "expected `if with_std: std = np.std(...); return mse, std else: return mse`")
+    sd, v = assign1(iff.body[0])
+    if not (np_call(v, "std", 1) and is_name(v.args[0], L) and all(k.arg in ("dtype", "ddof") for k in v.keywords)):
+        fail(iff.body[0], "expected `<std> = np.std(<L>, dtype=..., ddof=k)`")
+    ddof = kw_int(v, "ddof")
+    r = iff.body[1]
+    if not (isinstance(r, ast.Return) and isinstance(r.value, ast.Tuple) and len(r.value.elts) == 2 and is_name(r.value.elts[0], m) and is_name(r.value.elts[1], sd)):
+        fail(r, "expected `return <mse>, <std>`")
+    out.append("(* xs, ys: the stacked vectors of the objects; result (mean, Some variance) or (mean, None) *)\n"
+               "Definition gen_mse_qoperations (n : nat) (xs ys : list vec) (with_std : bool) : F * option F :=\n"
+               "  let points := map (fun xy : vec * vec => sqdist F n (fst xy) (snd xy)) (combine xs ys) in\n"
+               "  (mean F points, if with_std then Some (var_ddof F %d points) else None).\n" % ddof)
+    # calc_mse_qoperations: mode dispatch
+    f = find_def(da, "calc_mse_qoperations")
+    if argnames(f) != ["xs", "ys", "mode", "with_std"]:
+        fail(f, "unexpected parameters")
+    dflt = f.args.defaults
+    if not (len(dflt) == 2 and isinstance(dflt[0], ast.Constant) and isinstance(dflt[0].value, str) and isinstance(dflt[1], ast.Constant) and type(dflt[1].value) is bool):
+        fail(f, "expected defaults (mode=<str>, with_std=<bool>)")
+    st = body_wo_doc(f)
+    if not (len(st) == 1 and isinstance(st[0], ast.If)):
+        fail(f, "expected one if / elif / else chain")
+
+    def chain(node):
+        t = node.test
+        if not (isinstance(t, ast.Compare) and len(t.ops) == 1 and isinstance(t.ops[0], ast.Eq) and is_name(t.left, "mode")
+                and isinstance(t.comparators[0], ast.Constant) and isinstance(t.comparators[0].value, str)):
+            fail(t, "expected `mode == <string constant>`")
+
+        def branch(body):
+            if len(body) == 1 and isinstance(body[0], ast.If):
+                return chain(body[0])
+            if body and is_raise_valueerror(body[-1]) and all(isinstance(x, ast.Assign) for x in body[:-1]):
+                return "None"
+            if len(body) == 1 and isinstance(body[0], ast.Return) and isinstance(body[0].value, ast.Call) and isinstance(body[0].value.func, ast.Name):
+                c = body[0].value
+                if c.func.id == "_calc_mse_linear_analytical_mode_qoperation":
+                    ok_ = (len(c.args) == 2 and is_name(c.args[0], "xs") and is_name(c.args[1], "ys") and [k.arg for k in c.keywords] == ["with_std"] and is_name(c.keywords[0].value, "with_std"))
+                    if not ok_:
+                        fail(c, "unexpected arguments")
+                    return "Some true"
+                if c.func.id == "_calc_mse_linear_analytical_mode_var":
+                    return "Some false"
+            fail(body[0], "unsupported branch of the mode dispatch")
+        if not node.orelse:
+            fail(node, "missing else branch")
+        return "if String.eqb mode %s then %s else %s" % (coq_str(t.comparators[0].value), branch(node.body), branch(node.orelse))
+    out.append("(* Some true = the qoperation-mode sample MSE, Some false = the var-mode function (raises NotImplementedError), None = ValueError *)\n"
+               "Definition gen_mse_qops_dispatch (mode : string) : option bool :=\n  %s.\n"
+               "Definition gen_mse_qops_default_mode : string := %s.\nDefinition gen_mse_qops_default_with_std : bool := %s.\n"
+               % (chain(st[0]), coq_str(dflt[0].value), "true" if dflt[1].value else "false"))
+    return "\n".join(out)
+
+
+def tr_mu_fisher(fdef):
+    if argnames(fdef) != ["prob_dist", "grad_prob_dist", "eps"]:
+        fail(fdef, "unexpected parameters")
+    st = body_wo_doc(fdef)
+    if len(st) != 11:
+        fail(fdef, "expected 11 statements, found %d" % len(st))
+    s0 = st[0]
+    ok = (isinstance(s0, ast.Assign) and is_name(s0.targets[0], "eps") and isinstance(s0.value, ast.IfExp) and is_name(s0.value.body, "eps")
+          and isinstance(s0.value.orelse, ast.Constant) and type(s0.value.orelse.value) is float)
+    if not ok:
+        fail(s0, "expected the eps default")
+    default = Fraction(*s0.value.orelse.value.as_integer_ratio())
+    s1 = st[1]
+    ok = (isinstance(s1, ast.Expr) and isinstance(s1.value, ast.Call) and is_name(s1.value.func, "validate_prob_dist") and len(s1.value.args) == 1
+          and is_name(s1.value.args[0], "prob_dist") and [k.arg for k in s1.value.keywords] == ["eps"] and is_name(s1.value.keywords[0].value, "eps"))
+    if not ok:
+        fail(s1, "expected `validate_prob_dist(prob_dist, eps=eps)`")
+    sp, v = assign1(st[2])
+    if not (isinstance(v, ast.Subscript) and isinstance(v.value, ast.Attribute) and v.value.attr == "shape" and is_name(v.value.value, "prob_dist") and is_const(v.slice, 0)):
+        fail(st[2], "expected `<m> = prob_dist.shape[0]`")
+    sg, v = assign1(st[3])
+    if not (isinstance(v, ast.Call) and is_name(v.func, "len") and len(v.args) == 1 and is_name(v.args[0], "grad_prob_dist")):
+        fail(st[3], "expected `<g> = len(grad_prob_dist)`")
+    nx = NatExpr(env={sp: "m", sg: "g"})
+    g1 = st[4]
+    if not (isinstance(g1, ast.If) and not g1.orelse and len(g1.body) == 1 and is_raise_valueerror(g1.body[0])):
+        fail(g1, "expected the size guard")
+    size_guard = nx.cmp(g1.test)
+    g2 = st[5]
+    ok = (isinstance(g2, ast.If) and not g2.orelse and len(g2.body) == 1 and is_raise_valueerror(g2.body[0]) and isinstance(g2.test, ast.Compare)
+          and len(g2.test.ops) == 1 and isinstance(g2.test.ops[0], ast.LtE) and is_name(g2.test.left, "eps") and is_const(g2.test.comparators[0], 0))
+    if not ok:
+        fail(g2, "expected `if eps <= 0: raise ValueError`")
+    rp, v = assign1(st[6])
+    if not (isinstance(v, ast.Call) and is_name(v.func, "replace_prob_dist") and len(v.args) == 2 and not v.keywords and is_name(v.args[0], "prob_dist") and is_name(v.args[1], "eps")):
+        fail(st[6], "expected `<r> = replace_prob_dist(prob_dist, eps)`")
+    sv, v = assign1(st[7])
+    ok = (isinstance(v, ast.Subscript) and isinstance(v.value, ast.Attribute) and v.value.attr == "shape" and isinstance(v.value.value, ast.Subscript)
+          and is_name(v.value.value.value, "grad_prob_dist") and is_const(v.value.value.slice, 0) and is_const(v.slice, 0))
+    if not ok:
+        fail(st[7], "expected `<nv> = grad_prob_dist[0].shape[0]`")
+    mat, v = assign1(st[8])
+    if not (np_call(v, "zeros", 1) and isinstance(v.args[0], ast.Tuple) and len(v.args[0].elts) == 2 and all(is_name(x, sv) for x in v.args[0].elts)):
+        fail(st[8], "expected `<matrix> = np.zeros((<nv>, <nv>))`")
+    pa, ga = zip_loop(st[9], rp, "grad_prob_dist")
+    if len(st[9].body) != 1:
+        fail(st[9], "expected one statement in the loop")
+    a = st[9].body[0]
+    ok = (isinstance(a, ast.AugAssign) and is_name(a.target, mat) and isinstance(a.op, ast.Add) and isinstance(a.value, ast.BinOp) and isinstance(a.value.op, ast.Div)
+          and is_outer_self(a.value.left, ga) and is_name(a.value.right, pa))
+    if not ok:
+        fail(a, "expected `<matrix> += np.array([g]).T @ np.array([g]) / prob`")
+    if not (isinstance(st[10], ast.Return) and is_name(st[10].value, mat)):
+        fail(st[10], "expected `return <matrix>`")
+    txt = ("Definition gen_fisher_default_eps_num : Z := (%d)%%Z.\nDefinition gen_fisher_default_eps_den : Z := (%d)%%Z.\n" % (default.numerator, default.denominator))
+    txt += ("(* m = prob_dist.shape[0], g = len(grad_prob_dist); the loop runs over zip(replaced, grad_prob_dist) *)\n"
+            "Definition gen_mu_fisher (eps : F) (m g : nat) (prob_dist : vec) (grad_prob_dist : mat) : mres mat :=\n"
+            "  match validate F eps true (map prob_dist (seq 0 m)) with\n  | MErr c => MErr c\n  | MOk _ =>\n"
+            "    if %s then MErr 2 else\n    if kleb F eps (c0 F) then MErr 5 else\n"
+            "    let replaced := gen_replace_prob_dist m eps prob_dist in\n"
+            "    MOk (fun a b => sumn (Nat.min m g) (fun x => kdiv F (cmul F (grad_prob_dist x a) (grad_prob_dist x b)) (replaced x)))\n  end.\n" % size_guard)
+    return txt
+
+
 def main(repo, out):
     def parse(rel):
         return ast.parse(open(os.path.join(repo, rel), encoding="utf-8").read())
@@ -891,6 +1231,10 @@ def main(repo, out):
     parts.append(tr_tomo(find_class(tq, "StandardQTomography")))
     parts.append(tr_povmt_matS(find_class(tp, "StandardPovmt")))
     parts.append(tr_qmpt_matS(find_class(tm, "StandardQmpt")))
+    da = parse("quara/data_analysis/data_analysis.py")
+    parts.append(tr_cov_mats(mu, da))
+    parts.append(tr_sample_stats(mu, da))
+    parts.append(tr_mu_fisher(find_def(mu, "calc_fisher_matrix")))
     parts.append(tr_decisions(find_class(tq, "StandardQTomography"), find_class(parse("quara/protocol/qtomography/standard/standard_qst.py"), "StandardQst"),
                               find_class(tp, "StandardPovmt"), find_class(parse("quara/protocol/qtomography/standard/standard_qpt.py"), "StandardQpt"),
                               find_class(tm, "StandardQmpt")))
